@@ -80,6 +80,8 @@ func runMapProtocolOn(c *Ctx, prefix, pkgRel, namePfx string, full bool) {
 	R.Rule(mp.rule("cas-retry-reloads"), "every iteration of a retry loop on entry.p loads the word again", 3)
 	R.Rule(mp.rule("dirty-copy-complete"), "rebuilding the dirty map: every entry of the read map is carried over under its key or is on the true edge of the expunging helper, which reports true only for an expunged entry", 2)
 	R.Rule(mp.rule("lookup-justified"), "Map methods act on what their lookups found: an entry taken from a lookup is used only where that lookup's presence flag is true; 'absent' is answered, and a new entry inserted, only where the key is missing from the latest snapshot of the read map and that snapshot is not amended or the key is missing from dirty too (an insertion always needs the miss in dirty)", 4)
+	R.Rule(mp.rule("dirty-write-exists"), "an entry is written into the dirty map only where the path has established that the map exists: created on this path, ensured by the creating helper under the same lock, found non-nil / hit / amended on a fresh snapshot under the same lock, or on the true edge of the un-expunging helper (an expunged entry implies a dirty map)", 2)
+	R.Rule(mp.rule("dirty-lookup-current"), "a lookup in the dirty map is made before anything on the path, under the same lock, may have promoted the map or deleted from it: what it finds is what the map held when the lock was taken", 2)
 	R.Rule(mp.rule("effect-completeness"), "Store stores on every path; Load/LoadOrStore/LoadAndDelete return the entry operation's own result for the entry found after the re-check; Delete delegates to LoadAndDelete", 5)
 
 	mp.fMu = c.P.FieldOf(mp.pkg, "Map", "mu")
@@ -239,6 +241,8 @@ func runMapProtocolOn(c *Ctx, prefix, pkgRel, namePfx string, full bool) {
 	mp.entryTables()
 	mp.dirtyCopyComplete()
 	mp.lookupJustified()
+	mp.dirtyWriteExists()
+	mp.dirtyLookupCurrent()
 	if full {
 		mp.effectCompleteness()
 	}
@@ -1745,7 +1749,8 @@ func (mp *mapProto) rangePromotes() {
 						ok, why = false, "the callback is invoked for an entry whose load reported deleted"
 					}
 				}
-				// result false -> not a loop back
+				// result false -> not a loop back; result true (or not looked at) -> the iteration goes on
+				resFalse := false
 				for _, cd := range p.Conds {
 					t, pol := stripNot(cd.T, cd.Pol)
 					if t.Key() == e.Res.Key() {
@@ -1755,7 +1760,13 @@ func (mp *mapProto) rangePromotes() {
 						if !pol && p.End == EndReturn {
 							sawBreak = true
 						}
+						if !pol {
+							resFalse = true
+						}
 					}
+				}
+				if p.End == EndReturn && !resFalse {
+					ok, why = false, "stops iterating although the callback did not return false: the remaining entries are never visited ("+p.CondString()+")"
 				}
 			}
 		}
@@ -2803,4 +2814,161 @@ func (mp *mapProto) dirtyEnsurers() map[*FuncInfo]string {
 		out[fi] = why
 	}
 	return out
+}
+
+// ---- dirty-write-exists ----------------------------------------------------------------------
+
+// dirtyWriteExists: m.dirty[k] = e panics on a nil map. Sequentially the surrounding tests usually make that
+// impossible; under concurrency the entry found in the read map may have been un-expunged and the dirty map promoted
+// away by others before this goroutine got the lock - so the write is justified only by what the path has
+// established under its own lock.
+func (mp *mapProto) dirtyWriteExists() {
+	c := mp.c
+	rule := mp.rule("dirty-write-exists")
+	ens := mp.dirtyEnsurers()
+	un := mp.unexpungers()
+	for _, fi := range mp.funcs {
+		type st struct {
+			ok  bool
+			why string
+			pos ssa.Instruction
+		}
+		sites := map[string]*st{}
+		var order []string
+		for _, p := range mp.paths[fi] {
+			for i := range p.Events {
+				e := &p.Events[i]
+				if e.Kind != "mapupdate" || !mp.isDirtyMap(p, e.Addr) {
+					continue
+				}
+				k := instrOrdinal(e.Instr)
+				s, seen := sites[k]
+				if !seen {
+					s = &st{ok: true, pos: e.Instr}
+					sites[k] = s
+					order = append(order, k)
+				}
+				_, lockIdx, _ := mp.heldAt(p, i)
+				good := mp.dirtyKnownBefore(p, lockIdx, i)
+				for j := 0; j < i && !good; j++ {
+					f := &p.Events[j]
+					// created on this path (and not taken away again)
+					if f.Kind == "store" && mp.isDirtyAddr(f.Addr) {
+						good = f.Val.Op == "mkmap"
+						if !good {
+							break
+						}
+					}
+					if j <= lockIdx {
+						continue
+					}
+					if f.Kind == "call" && f.SSAFn != nil {
+						if gi := c.P.BySSA[f.SSAFn]; gi != nil {
+							if _, isE := ens[gi]; isE {
+								good = true
+							}
+							// the true edge of the un-expunging helper
+							if un[gi] && gi != fi && f.Res != nil {
+								for _, cd := range p.Conds {
+									t, pol := stripNot(cd.T, cd.Pol)
+									if pol && cd.NEv <= i && t.Key() == f.Res.Key() {
+										good = true
+									}
+								}
+							}
+						}
+					}
+				}
+				// the un-expunging CAS itself, inline
+				if !good {
+					for _, g := range mp.privilegedOps(p) {
+						if g.what == "unexpunge CAS" && g.n < i && g.n > lockIdx {
+							res := p.Events[g.n].Res
+							for _, cd := range p.Conds {
+								t, pol := stripNot(cd.T, cd.Pol)
+								if pol && res != nil && t.Key() == res.Key() {
+									good = true
+								}
+							}
+						}
+					}
+				}
+				if !good {
+					s.ok = false
+					s.why = p.CondString()
+				}
+			}
+		}
+		sort.Strings(order)
+		for _, k := range order {
+			s := sites[k]
+			if s.ok {
+				c.R.Held(rule, fi.Name, k, c.ipos(s.pos), "the dirty map is known to exist where the entry is written into it")
+			} else {
+				o := c.R.Refuted(rule, fi.Name, k, c.ipos(s.pos), "an entry is written into the dirty map on a path ("+s.why+") that has not established, under its lock, that the map exists")
+				o.Breaks = "assignment to entry in nil map while holding mu: the process panics and the lock is never released"
+			}
+		}
+	}
+}
+
+// ---- dirty-lookup-current --------------------------------------------------------------------
+
+func (mp *mapProto) dirtyLookupCurrent() {
+	c := mp.c
+	rule := mp.rule("dirty-lookup-current")
+	promoters := map[*FuncInfo]bool{}
+	for _, fi := range mp.funcs {
+		if mp.funcPromotes(fi) {
+			promoters[fi] = true
+		}
+	}
+	for _, fi := range mp.funcs {
+		type st struct {
+			ok  bool
+			why string
+			pos ssa.Instruction
+		}
+		sites := map[string]*st{}
+		var order []string
+		for _, p := range mp.paths[fi] {
+			for _, a := range p.Acc {
+				if a.Kind != "lookup" || !mp.isDirtyMap(p, a.Addr) {
+					continue
+				}
+				k := instrOrdinal(a.Instr)
+				s, seen := sites[k]
+				if !seen {
+					s = &st{ok: true, pos: a.Instr}
+					sites[k] = s
+					order = append(order, k)
+				}
+				_, lockIdx, _ := mp.heldAt(p, a.NEv)
+				for j := lockIdx + 1; j < a.NEv && j < len(p.Events); j++ {
+					if j < 0 {
+						continue
+					}
+					f := &p.Events[j]
+					switch {
+					case f.Kind == "call" && f.Name == "builtin.delete" && len(f.Args) >= 1 && mp.isDirtyMap(p, f.Args[0]):
+						s.ok, s.why = false, "after a delete from the dirty map"
+					case f.Kind == "call" && f.SSAFn != nil && c.P.BySSA[f.SSAFn] != nil && promoters[c.P.BySSA[f.SSAFn]] && c.P.BySSA[f.SSAFn] != fi:
+						s.ok, s.why = false, "after a call of "+c.P.BySSA[f.SSAFn].Obj.Name()+", which may promote the dirty map (and leave nil behind)"
+					case f.Kind == "store" && mp.isDirtyAddr(f.Addr) && f.Val.IsNil():
+						s.ok, s.why = false, "after the dirty map was given away"
+					}
+				}
+			}
+		}
+		sort.Strings(order)
+		for _, k := range order {
+			s := sites[k]
+			if s.ok {
+				c.R.Held(rule, fi.Name, k, c.ipos(s.pos), "the dirty map is looked up as it was when the lock was taken")
+			} else {
+				o := c.R.Refuted(rule, fi.Name, k, c.ipos(s.pos), "the dirty map is looked up "+s.why+": an entry that was there when the lock was taken is reported absent")
+				o.Breaks = "a stored key is reported absent (and, for LoadAndDelete, dropped without its value being returned)"
+			}
+		}
+	}
 }
